@@ -210,6 +210,8 @@ def units(ctx):
             nsen = ctx.rng.choice([0, 1, 2, 3]) if rep else [0, 1, 2, 3][combos.index((nc, nk))]
             d = gen.gen_definition(ctx.rng, n_state=ctx.rng.choice([2, 3, 4]), n_control=nc and ctx.rng.choice([1, 2]), n_calib=nk and ctx.rng.choice([1, 2]),
                                    n_sensors=nsen, depth=2, transcend=(rep % 4 == 3) or (rep == 1 and (nc, nk) == (2, 1)))
+            if rep == 0 and (nc, nk) == (2, 0):
+                d = gen.paired_powers_definition(ctx.rng)      # statements that differ only by -1 / -2
             if d.transcend and not any_inverse:
                 gen.force_inverse_composition(ctx.rng, d); any_inverse = True
             if nsen and rep % 2 == 1:
@@ -228,7 +230,7 @@ def run(ctx):
         pts = [gen.gen_point(ctx.rng, d) for _ in range(3 if ctx.quick else 8)]
         cal = pts[0]["cal"]
         pts = [dict(p, cal=cal) for p in pts]
-        cse = ctx.rng.random() < 0.6
+        cse = True if d.transcend else ctx.rng.random() < 0.6   # simplification only runs with CSE on
         max_dt = ctx.rng.choice([0.1, 0.05, 0.0123456789, 1.0 / 3.0, 2.5e-6])
         filt = ctx.rng.choice([5.0, None, 1.0 / 3.0, 2.125])
         for kind in ("ekf", "model"):
